@@ -239,10 +239,28 @@ End FindVal.
 Definition has_key (name : str) (fs : list (ident * value)) : bool :=
   existsb (fun kv => str_eqb name (iname (fst kv))) fs.
 
+(** [str::parse::<i32>]: an optional sign, then one or more ASCII digits, value within the signed 32-bit range *)
+Definition digit_val (c : N) : option N := if N.leb 48 c && N.leb c 57 then Some (c - 48)%N else None.
+Fixpoint digits_val (acc : N) (l : str) : option N :=
+  match l with
+  | [] => Some acc
+  | c :: r => match digit_val c with Some d => digits_val (acc * 10 + d)%N r | None => None end
+  end.
+Definition parse_i32 (l : str) : bool :=
+  let neg := match l with 45%N :: _ => true | _ => false end in
+  let ds := match l with 45%N :: r => r | 43%N :: r => r | _ => l end in
+  match ds with
+  | [] => false
+  | _ => match digits_val 0 ds with
+         | Some m => if neg then N.leb m 2147483648 else N.leb m 2147483647
+         | None => false
+         end
+  end.
+
 (** scalar arm of is_value_compatible_type_def *)
 Definition scalar_accepts (name : str) (v : value) : bool :=
   if str_eqb name str_Boolean then match v with VBool _ _ | VNull _ => true | _ => false end
-  else if str_eqb name str_Int then match v with VInt _ _ | VNull _ => true | _ => false end
+  else if str_eqb name str_Int then match v with VInt _ lexeme => parse_i32 lexeme | VNull _ => true | _ => false end
   else if str_eqb name str_Float then match v with VFloat _ _ | VInt _ _ | VNull _ => true | _ => false end
   else if str_eqb name str_String then match v with VString _ _ | VNull _ => true | _ => false end
   else if str_eqb name str_ID then match v with VString _ _ | VInt _ _ | VNull _ => true | _ => false end
@@ -594,7 +612,7 @@ Definition op_location (o : optype) : str :=
 
 Definition check_operation (fuel : nat) (S : tsdoc) (fm : list fragdef) (op : opdef) : list err :=
   let rts := root_types S in
-  match (if negb (pbuiltin (r_pos rts)) then
+  match (if negb (pbuiltin (r_pos rts)) || match r_query rts with Some _ => true | None => false end then
            match root_of rts (op_type op) with
            | None => Some [mkErr (NoRootType (op_type op)) (op_pos op) [(r_pos rts, RootTypesAreDefinedHere)]]
            | Some _ => None
